@@ -42,7 +42,8 @@ def main():
         checks = args[1:] or meta["checks_run"]
         tmp = scratch(os.path.join(d, "patch.diff"))
         try:
-            meta["results"].update(run_checks(sid, checks, tmp, seeds=(0, 1)))
+            seeds = tuple(int(x) for x in os.environ.get("SEEDKEEP_SEEDS", "0 1").split())
+            meta["results"].update(run_checks(sid, checks, tmp, seeds=seeds))
         finally:
             shutil.rmtree(tmp, ignore_errors=True)
         meta["checks_run"] = sorted(set(meta["checks_run"]) | set(checks))
